@@ -448,6 +448,9 @@ fn execute_history(run: &Run, opts: &ExecOpts) -> Outcome {
                         let v = Variant { hash_seed: *s, preregister: vec![], repeat: false, diag_first: *diag_first, root: None, earlier: vec![], verbose: false };
                         let fr = fresh_process(&fs_now, &entry, &run.project.settings, &v);
                         cx.log_triple(&fr.first);
+                        // vacuity guard of the coordinator: a compiler that always says no is total, deterministic
+                        // and history-free, and nothing would have been decided
+                        cx.out.stats.probe(if fr.first.code.is_some() { "fresh_build_gave_code" } else { "fresh_build_gave_no_code" });
                         cx.out.max_call_cpu_ms = cx.out.max_call_cpu_ms.max(fr.max_call_cpu_ms);
                         let slow = cx.slow_call("fresh", fr.max_call_cpu_ms, fr.max_call_probe, i);
                         fresh.push(fr);
@@ -709,6 +712,7 @@ fn execute_c10(run: &Run, opts: &ExecOpts) -> Outcome {
         cx.out.stats.c10_variants_built += 1;
         cx.out.stats.fresh_builds += 2;
         let fr = fresh_process(&fs, entry, &run.project.settings, v);
+        cx.out.stats.probe(if fr.first.code.is_some() { "fresh_build_gave_code" } else { "fresh_build_gave_no_code" });
         cx.log_triple(&fr.first);
         cx.out.max_call_cpu_ms = cx.out.max_call_cpu_ms.max(fr.max_call_cpu_ms);
         if cx.slow_call("fresh", fr.max_call_cpu_ms, fr.max_call_probe, i) {
